@@ -188,6 +188,8 @@ package sm
 //@ # the CER handler (the function value handleCER returns): free variable sm
 //@ func handleCER$1(c, m)
 //@   property C10 C11
+//@   # the handshake notification is offered, never waited for
+//@   nonblocking
 //@   requires smok(sm) && c != nil && isptr(c) && reqok(m) && !closed(sm.hsNotifyc)
 //@   requires apps_listed: forall i int :: 0 <= i && i < len(sm.supportedApps) ==> sm.supportedApps[i] != nil
 //@   modifies connctx(c), connclosed(c), reports(), unmarshalled(m), cerverdict(m), cerof(m),
@@ -257,9 +259,11 @@ package sm
 //@ end
 //@
 //@ # the DWA handler (free variables sm, dwac): a parse failure is reported; nothing else is touched.  The acknowledgement
-//@ # itself is a non-blocking channel send, which the sequential fragment does not observe.
+//@ # itself must be a non-blocking channel send (clause nonblocking); whether it is received is not observed.
 //@ func handleDWA$1(c, m)
 //@   property C10 C13
+//@   # the acknowledgement is offered, never waited for: a surplus DWA must not hold up the connection's read loop
+//@   nonblocking
 //@   ensures [C10] the_watchdog_leaves_the_gate_as_it_found_it: connctx(c) == old(connctx(c))
 //@   requires smok(sm) && c != nil && m != nil && !closed(dwac)
 //@   modifies reports(), unmarshalled(m), dwaverdict(m), dwaof(m), fresh
